@@ -18,8 +18,9 @@ Fixpoint stmt_uses (x : name) (st : stmt) : bool :=
     match ss with [] => false | s :: r => stmt_uses x s || go r end in
   match st with
   | SBin _ _ e1 e2 => expr_uses x e1 || expr_uses x e2
-  | SNot _ e | SPrim _ _ e | SBreak e => expr_uses x e
-  | SCall _ args _ => existsb (expr_uses x) args
+  | SNot _ e | SPrim _ _ e | SBreak e | SLateAssign _ e => expr_uses x e
+  | SLateDecl _ => false
+  | SCall _ args _ | SStruct _ _ args => existsb (expr_uses x) args
   | SIf c s1 s2 fas =>
       expr_uses x c || go s1 || go s2 || existsb (fun fa => expr_uses x (t_e1 fa) || expr_uses x (t_e2 fa)) fas
   | SSIf c _ ss => expr_uses x c || go ss
